@@ -1,6 +1,7 @@
 import Nstd.Server.LemmasC14F
 import Nstd.Server.BatchC14
 import Nstd.Server.KeepsC14
+import Nstd.Server.TermC14
 /-
   C14 — property theorems about the transition-system model of `Server::run()` (ModelC14.lean).
 
@@ -16,8 +17,10 @@ import Nstd.Server.KeepsC14
      dispatched.  Proved: one buffered event per poll, FIFO (`poll_delivers_buffered_first`), the batch only
      shrinks until the kernel is asked again (`poll_step_drains_batch`, `batch_only_shrinks_outside_poll`),
      what the kernel reports is buffered in order (`poll_buffers_reported`), only registered kinds are
-     dispatched.  Not proved: that run() reaches the next poll (needs timer intervals > 0 and callback scripts
-     that do not re-queue a closed client forever) and the kernel's fairness itself.
+     dispatched, and — for quiet callback scripts (no timer creation, no read/write inside callbacks) — run()
+     reaches the next kernel query after finitely many steps (`kernel_is_asked_again`).  Not proved: the same for
+     arbitrary scripts (false in general: a script may re-queue a closed client forever) and the kernel's
+     fairness itself (an assumption about the environment).
    * interrupt() from a second thread is modelled as two moves (`intrBegin`: test-and-set of the flag under
      the mutex, `intrEnd`: write of the event descriptor) that interleave with the steps of run() in any
      way; weak-memory effects on the unlocked read of `_interrupted` in run() are not modelled.
@@ -444,6 +447,33 @@ theorem interrupt_end_signals (ms : List Move) (h : (reach ms).pendingEfd ≠ 0)
     0 < (move (reach ms) .intrEnd).eventfd ∧ (move (reach ms) .intrEnd).pendingEfd = (reach ms).pendingEfd - 1 := by
   simp only [move, h, if_false]
   exact ⟨Nat.succ_pos _, trivial⟩
+
+/-- interrupt_eventually_returns (composition): from ANY reachable state with a pending interrupt — set before run()
+    or during it, in whatever phase run() is, with whatever batch, due timers and closing list — run() returns after
+    finitely many steps, for every sequence of kernel answers (any sockets in any order, any time advance) that
+    reports the event descriptor and every send outcome.  Assumptions: timer intervals are positive (guaranteed:
+    `timer_intervals_positive`), the callback scripts in effect are quiet (create no timers, do not read/write — a
+    script that reads a closed client again in onClosed re-queues it forever, in the C++ as well) and no other
+    thread is between the two writes of its interrupt().  Proof: the lexicographic measure (pending batch length,
+    phase, lateness of the timer queue / length of the closing list) drops in every step (`step_progress`). -/
+theorem interrupt_eventually_returns (ms : List Move) (f : Nat → PollIn × Outcome)
+    (hint : (reach ms).interrupted = true) (hf : ∀ n, (f n).1.eventfd = true)
+    (hg : ∀ n, QuietScripts (runN (reach ms) f n) ∧ (runN (reach ms) f n).pendingEfd = 0) :
+    ∃ n, (runN (reach ms) f n).pc = .idle :=
+  eventually_returns _ (reach ms) f rfl (inv_reach ms) (invI_reach ms) hint hf hg
+
+/-- ready_eventually_dispatched, conditional form (1): with quiet scripts run() reaches, after finitely many steps, a
+    poll with an empty pending batch — it asks the kernel again (or has returned).  Until then the batch only
+    shrinks, oldest entry first: every entry is dispatched (`poll_step_drains_batch`) or pruned by set()/remove().
+    (2) what a kernel that reports every ready registered socket answers then is buffered in order and its first
+    event dispatched at once (`poll_buffers_reported`), and (1) applies to the new batch. -/
+theorem kernel_is_asked_again (ms : List Move) (f : Nat → PollIn × Outcome)
+    (hg : ∀ n, QuietScripts (runN (reach ms) f n)) :
+    ∃ n, (runN (reach ms) f n).pc = .idle ∨
+      ∃ now tmo, (runN (reach ms) f n).pc = .poll now tmo ∧ (runN (reach ms) f n).selected = [] :=
+  kernel_asked_again _ (reach ms) f rfl (inv_reach ms) hg
+
+example : QuietScripts init := by intro i k a h; simp [init] at h
 
 /-- interrupt() sets the flag (idempotently) -/
 theorem interrupt_sets_flag (s : St) : (applyAct s none .interrupt).interrupted = true := by
